@@ -60,6 +60,8 @@ def run(prop, tier, seed, replay=None):
     items = [(c, m) for c in cases for m in pathcases.METHODS]
     # XML bodies with an external entity that names a file outside the root (both front ends)
     items += [({"segs": ["N1"], "lead": 1, "enc": "plain", "norm": ["LITERAL"]}, "XMLENT")] * 2
+    # a pushed commit with symbolic links that point outside the root, then clean paths through them
+    items += [({"segs": ["N1"], "lead": 1, "enc": "plain", "norm": ["LITERAL"], "locked": False}, "GITPUSH")] * 2
     # ordinary targets while the collection's index lock is held by someone else: a refused (or
     # failed) write must not leave its data in the system's temporary directory either
     for segs, norm in ((["N1", "N2"], ["N1", "N2"]), (["N1", "F"], ["N1", "F"]), (["N1"], ["N1"])):
